@@ -163,10 +163,21 @@ func c07One(c *Ctx, cs *Case, f model.Forest, doc, fkey string, rt fsRoute, dry,
 		target = "./target/../target"
 	}
 	opts := fsOpts(target, ExtLists[ei], ei != 0, dry, massive, false)
+	// a stray output-encoding option (meaningless for mkdir) must not open a way out of the target
+	stray := ""
+	switch (cs.Idx + ei + tf) % 5 {
+	case 1:
+		opts, stray = append(opts, gtree.WithEncodeJSON()), "json"
+	case 3:
+		opts, stray = append(opts, gtree.WithEncodeYAML()), "yaml"
+	}
 	mode := map[bool]string{true: "massive", false: "simple"}[massive]
 	cs.Entry = rt.Name + "[" + map[bool]string{true: "dryrun", false: "real"}[dry] + "," + mode + "]"
 	cs.Tags = []string{mode, map[bool]string{true: "dryrun", false: "real"}[dry]}
-	cs.Opt = map[string]string{"ext": strconv.Itoa(ei), "target_form": strconv.Itoa(tf)}
+	cs.Opt = map[string]string{"ext": strconv.Itoa(ei), "target_form": strconv.Itoa(tf), "stray_encode_option": stray}
+	if stray != "" {
+		cs.AddTag("stray-encode-option")
+	}
 	defer func() { cs.Entry, cs.Tags, cs.Opt = "", nil, nil }()
 	if massive {
 		c.Rejournal(cs)
